@@ -146,6 +146,10 @@ def check(run, tier, seed, replay=None):
             run.violation("C10 undisturbed run does not reach quiescence (controllers keep writing)",
                           {"scenario": strip(w), "impl": ro}, True)
             continue
+        if ro.get("quiet_errors"):
+            run.violation("C10 at quiescence a controller pass still fails (%s world, undisturbed)" % w.get("_kind"),
+                          {"scenario": strip(w), "impl": ro, "errors": ro["quiet_errors"][:3]}, True)
+            continue
         # every request of every pass of the disturbed prefix x {err, lost}
         for p, nreq in enumerate(ro["pass_requests"]):
             for q in range(nreq):
@@ -187,6 +191,11 @@ def check(run, tier, seed, replay=None):
         run.classes.add((w["_kind"] if "_kind" in w else "replay", what, ob["converged"], ob["rounds"]))
         if not ob["converged"] or ob["quiet_writes"] != 0:
             run.violation("C10 no quiescence after disturbance (%s world, %s)" % (w.get("_kind"), what), {"scenario": s, "impl": ob, "reference": ro["end"]}, True)
+        elif ob.get("quiet_errors"):
+            # no write is left to do, yet a pass still returns an error: the workqueue retries it forever and whatever the
+            # pass would report (status, Paused, Available) is never written
+            run.violation("C10 at quiescence a controller pass still fails (%s world, %s)" % (w.get("_kind"), what),
+                          {"scenario": s, "impl": ob, "errors": ob["quiet_errors"][:3]}, True)
         elif ob["end"] != ro["end"]:
             diff = {"members": [m for m in ob["end"]["members"] if m not in ro["end"]["members"]],
                     "sets": [x for x in ob["end"]["sets"] if x not in ro["end"]["sets"]]}
